@@ -16,10 +16,37 @@ def config(quick):
     )
 
 
+def apalache_inductive(ctx):
+    """OneFormat as an inductive invariant of the typed stand-alone module FormatInd.tla (16 logger slots,
+    histories of any length): Init => IndInv, IndInv /\ Next => IndInv', IndInv => OneFormat."""
+    import os
+    import shutil
+    import subprocess
+    from vlib import SPEC, Undecided
+    d = ctx.sub("apalache")
+    shutil.copyfile(os.path.join(SPEC, "FormatInd.tla"), os.path.join(d, "FormatInd.tla"))
+    done = 0
+    obligations = [("Init => IndInv", ["--init=Init", "--inv=IndInv", "--length=0"]),
+                   ("IndInv /\\ Next => IndInv'", ["--init=IndInit", "--inv=IndInv", "--length=1"]),
+                   ("IndInv => OneFormat", ["--init=IndInit", "--inv=OneFormat", "--length=0"])]
+    for name, args in obligations:
+        p = subprocess.run(["timeout", "300", "apalache-mc", "check"] + args + ["FormatInd.tla"], cwd=d,
+                           capture_output=True, text=True)
+        if "The outcome is: NoError" in p.stdout:
+            done += 1
+        elif "The outcome is: Error" in p.stdout:
+            raise Undecided("Apalache refutes the inductive step %s - the model of C11 is wrong:\n%s" % (name, p.stdout[-1500:]))
+        else:
+            raise Undecided("apalache-mc failed on %s:\n%s" % (name, (p.stdout + p.stderr)[-1500:]))
+    ctx.extra["apalache_obligations"] = len(obligations)
+    ctx.extra["apalache_discharged"] = done
+
+
 def run(ctx, replay):
     c = config(ctx.quick())
     if replay:
         return corelib.replay_core(ctx, replay, c, ["cfg", "shape", "tree"])
+    apalache_inductive(ctx)
     corelib.run_core(ctx, c, invariants=["OneFormat", "TreeOK"], properties=["Isolation", "TreeMonotone"],
                      obs=["cfg", "shape", "tree"], rand_count=30 if ctx.quick() else 400,
                      rand_depth=25 if ctx.quick() else 40, rand_loggers=8 if ctx.quick() else 14)
